@@ -677,6 +677,8 @@ func (s *Server) handlePQClientRequestHidden(b []byte) (int, *HandshakeState, er
 	// init kem
 	hs.kem = new(kemState)
 
+	hs.certVerify = s.config.ClientVerify
+
 	n, err := s.readPQClientRequestHidden(hs, b)
 
 	if err != nil {
